@@ -23,6 +23,8 @@ def run(tier, seed):
         tasks += [(MOD, 'run_group', (mp[i::6], tier)) for i in range(6)]
     else:
         tasks += [(MOD, 'run_slice', (name, tier, i, 2)) for name in mp for i in range(2)]
+    # low-probability random events forced (added after a seeded change in _np_is_zero was missed)
+    tasks += [('lib.native', 'run_natives', ('contracts.secarray_extra', ['is_zero_forced_zero_mask'], tier))]
     obs = run_tasks(tasks)
     return finish('C37', tier, seed, obs, 'other', t0,
                   explanation='BOUNDED contract evaluation of the secure NumPy arrays on the real code (NumPy enabled). Every case (type, operation, operand shapes/kinds, parameters) is evaluated '
